@@ -244,6 +244,7 @@ type SeqResult struct {
 	Compared   int
 	InContract bool
 	F5Left     bool // some step left f5Free
+	Hang       bool // a call other than the re-entrant Get did not return: its goroutine is still running
 	Outs       map[string][]string
 }
 
@@ -373,6 +374,9 @@ func (rn *Runner) Run(ops []Op) (*SeqResult, error) {
 		for bi, w := range ws {
 			outs[bi] = w.Exec(o)
 			sr.Outs[w.name] = append(sr.Outs[w.name], outs[bi])
+			if outs[bi] == "hang" && o.K != "getw" {
+				sr.Hang = true
+			}
 		}
 		// 1. correspondence: each real backend against the Lean transcription of it
 		if da.ok {
@@ -499,10 +503,14 @@ func (rn *Runner) account(res *lib.Result, ops []Op, sr *SeqResult) {
 		if _, dup := reported.LoadOrStore(d.Sig, true); dup {
 			continue
 		}
-		small := rn.shrink(ops, d.Sig)
-		rp := Replay{Cfg: rn.cfg, Lines: lines(small), Ops: small}
+		small := ops[:d.At+1]
+		if !sr.Hang { // (re-running a sequence with a call that never returns would leave one more goroutine spinning)
+			small = rn.shrink(ops, d.Sig)
+		}
+		rp := Replay{Cfg: rn.cfg, Lines: lines(small), Ops: small, Div: &d}
 		what := fmt.Sprintf("%s: op %q: %s says %q, %s says %q", d.Sig, d.Op, d.A, d.OutA, d.B, d.OutB)
-		if sr2, err := rn.Run(small); err == nil {
+		if sr.Hang {
+		} else if sr2, err := rn.Run(small); err == nil {
 			if d2 := hasSig(sr2, d.Sig); d2 != nil {
 				rp.Div, rp.Outputs = d2, sr2.Outs
 				what = fmt.Sprintf("after %d ops, %q: %s says %q, %s says %q", d2.At, d2.Op, d2.A, d2.OutA, d2.B, d2.OutB)
